@@ -17,6 +17,8 @@ impl Typstyle {
         source: &Source,
         utf8_range: Range<usize>,
     ) -> Result<(Range<usize>, String), Error> {
+        #[cfg(typstyle_verif)]
+        crate::verif_hooks::point(crate::verif_hooks::Point::RangeEnter);
         // The range may end past the text. Clamp it before slicing.
         let len = source.len_bytes();
         let utf8_range = utf8_range.start.min(len)..utf8_range.end.min(len);
@@ -55,6 +57,8 @@ impl Typstyle {
             .nest(indent as isize)
             .pretty(self.config.max_width)
             .to_string();
+        #[cfg(typstyle_verif)]
+        crate::verif_hooks::point(crate::verif_hooks::Point::RangeExit);
         Ok((node.range(), res))
     }
 }
